@@ -236,3 +236,16 @@ pub fn with_guarded_view<R>(
         crate::footprint_guard::FootprintGuard::new(fp, store.warp_id(), "verif", is_system);
     f(crate::graph_view::GraphView::new_guarded(store, &guard))
 }
+
+// ----------------------------------------------------------------------------
+// warp_state.rs: state construction
+// ----------------------------------------------------------------------------
+
+/// `WarpState::upsert_instance`.
+pub fn state_upsert_instance(
+    state: &mut crate::warp_state::WarpState,
+    instance: crate::warp_state::WarpInstance,
+    store: crate::graph::GraphStore,
+) {
+    state.upsert_instance(instance, store);
+}
